@@ -273,8 +273,12 @@ func runC08(cs CaseSpec) *CaseResult {
 	// the hostile grammar is not about suspension
 	nw.CheckSuspendAfterGossip = false
 	warm := ScheduleSpec{Steps: int(cs.I("warm", 120)), Shape: "uniform", SubmitProb: 0.5, TxKinds: 2}
-	nw.RunSchedule(warm)
-	nw.FairCycles(10)
+	if warm.Steps > 0 {
+		nw.RunSchedule(warm)
+	}
+	if warm.Steps >= 5 {
+		nw.FairCycles(10)
+	}
 	victim := nw.Nodes[0]
 	byz := nw.Nodes[n-1]
 	// The Byzantine validator's real node is switched off and the harness uses
@@ -330,6 +334,19 @@ func runC08(cs CaseSpec) *CaseResult {
 				}
 			case i%37 == 36:
 				name, cmd = "unknown command type", "not a command"
+			case i%11 == 7:
+				// well-formed, validly signed join requests: by a key that is already a
+				// member (replayed join), by a stranger the application will refuse
+				var k *SimKey
+				moniker := "refuse-again"
+				if rng.Intn(2) == 0 {
+					k = &SimKey{nw.Nodes[rng.Intn(len(nw.Nodes))].Key}
+				} else {
+					k = &SimKey{detKey(cs.Seed, "c08validjoin", i)}
+				}
+				itx := hg.NewInternalTransactionJoin(*peers.NewPeer(pubHex(k.K), "x:1", moniker))
+				itx.Sign(k.K)
+				name, cmd = "JoinRequest(validly signed)", &bnet.JoinRequest{InternalTransaction: itx}
 			default:
 				name, cmd = g.request()
 			}
@@ -601,6 +618,9 @@ func init() {
 			cs := []CaseSpec{}
 			for i := 0; i < count; i++ {
 				c := CaseSpec{Kind: "hostile", P: map[string]int64{"msgs": msgs, "warm": int64(80 + (i*13)%120)}, S: map[string]string{"mode": modes[i%len(modes)]}}
+				if i%8 == 2 || i%8 == 6 {
+					c.P["warm"] = int64(i % 3) // victims that have not decided any round yet
+				}
 				if modes[i%len(modes)] == "requests" && i%6 == 4 {
 					c.P["suspended"] = 1
 				}
